@@ -7,7 +7,7 @@ from common import run_model  # noqa: F401
 
 ID = "C06"
 LEVEL = "other"
-GEN = ["TmplGen", "UtilGen"]
+GEN = ["TmplGen", "UtilGen", "RxGen", "UnicodeGen", "InlineGen", "BlockGen", "NormalizeGen"]
 COQ = ["Props/C06.vo"]
 EXPLANATION = (
     "PARTIAL proof + oracle. Proved (coq/Props/C06.v) for every HTML render template regenerated from the source, every "
@@ -15,8 +15,13 @@ EXPLANATION = (
     "child is inserted at most once and is dropped only where the template tests it for emptiness; templates of inline "
     "tokens spell phrasing elements only (so no block element can be emitted inside <p>, <hN>, <td>); the five leaf "
     "templates insert their text exactly once through escape only; an inserted piece is an infix of the output and pieces "
-    "keep their order. NOT proved: the induction over the token tree that composes these into well-formedness of the whole "
-    "output, the Markdown and RST renderers, and two-step = one-step; these clauses are decided by the oracle: strict HTML "
+    "keep their order. WHOLE DOCUMENTS: on the executable model of the complete core conversion (coq/Model/Doc.v + HtmlDoc.v, tied by "
+    "skeletons, regenerated data and the HTML correspondence run of this check) the induction over the token tree is carried "
+    "out: for every document the output is a string of a balanced-tag grammar - text without < > and double-quote, elements "
+    "<name attrs>body</name> with body in the grammar, void elements, attribute values free of the three characters - in "
+    "which p, h1-h6, pre, a, em, strong and code contain phrasing elements only (C06_whole_document_is_well_nested), and every "
+    "string of that grammar returns the context reader to character data. NOT proved: plugin and directive tokens at tree "
+    "level, the Markdown and RST renderers, and two-step = one-step; these clauses are decided by the oracle: strict HTML "
     "nesting check, ordered search of every escaped leaf, per-line search of leaves in Markdown/RST output, and comparison "
     "of rendering a renderer-less token list with direct conversion.")
 ASSUMPTIONS = ["the leaf/inline classification of token types is part of the statement (this file and coq/Props/C06.v)"]
@@ -195,7 +200,8 @@ def check_text_renderer(m, which, doc, fails):
 
 
 def correspondence(ctx):
-    return {"evaluations": 0, "disagreements": [], "note": "template rendering correspondence is part of C02's check"}
+    import corr_html
+    return corr_html.run(ctx, ctx.n(1500, 30000))
 
 
 def oracle(ctx, extra):
